@@ -504,7 +504,7 @@ func calibrate() {
 }
 
 func run(r *core.Run) int {
-	r.Rule = "all histories up to depth 3 (quick; depth-4 seed sample) / depth 4 (thorough) over {fetch, publish, put cache entry fresh / older version / base expired / delta expired / no next-update, arm cache Get fault, arm cache Set fault, arm server fault on base, on delta location 0/1/2 (kinds error, 404, garbage, non-CRL DER)} followed by a final fetch, " +
+	r.Rule = "all histories up to depth 3 (quick; depth-4 seed sample) / depth 4 (thorough; plus depth 5 for four representative shapes) over {fetch, publish, put cache entry fresh / older version / base expired / delta expired / no next-update, arm cache Get fault, arm cache Set fault, arm server fault on base, on delta location 0/1/2 (kinds error, 404, garbage, non-CRL DER)} followed by a final fetch, " +
 		"x DiscardCacheError x cache present/absent x 16 freshest-CRL shapes (5 of them malformed in different places); non-trivial = at least 2 fetches or a fault / expiry op; distinct by history + configuration"
 	r.Assume("expired = nextUpdate 2001, fresh = 2096; CRL numbers identify version and variant of every returned CRL")
 	calibrate()
@@ -568,9 +568,7 @@ func run(r *core.Run) int {
 		}
 	}
 	r.Set("histories", len(cases))
-	r.Parallel(len(cases), func(i int) {
-		c := cases[i]
-		execute(r, c)
+	nontrivial := func(c *Case) bool {
 		fetches, faults := 0, 0
 		for _, o := range c.Ops {
 			if o == 0 {
@@ -579,13 +577,64 @@ func run(r *core.Run) int {
 				faults++
 			}
 		}
-		if fetches >= 2 || faults >= 1 {
+		return fetches >= 2 || faults >= 1
+	}
+	r.Parallel(len(cases), func(i int) {
+		c := cases[i]
+		execute(r, c)
+		if nontrivial(c) {
 			r.Nontrivial(c.desc())
 		}
 		if i%997 == 0 {
 			r.Sample("history", c.desc())
 		}
 	})
+	if !r.Quick() {
+		// one level deeper than the statement asks, exhaustively, for four
+		// representative freshest-CRL shapes; generated per prefix, never held in
+		// memory, counted instead of hashed (every 64th history is hashed)
+		deep := []string{"absent", "uri2", "malformed-uri-after-good", "https-then-http"}
+		var prefixes [][]int
+		var gen5 func(prefix []int, d int)
+		gen5 = func(prefix []int, d int) {
+			if d == 0 {
+				prefixes = append(prefixes, append([]int{}, prefix...))
+				return
+			}
+			for o := 0; o < nOps; o++ {
+				gen5(append(prefix, o), d-1)
+			}
+		}
+		gen5(nil, depth+1)
+		r.Set("exhaustive_depth_reduced_shapes", depth+1)
+		r.Parallel(len(prefixes), func(i int) {
+			ops := prefixes[i]
+			usesCache := false
+			for _, o := range ops {
+				if n := opNames[o]; strings.HasPrefix(n, "put-") || n == "arm-get" || n == "arm-set" {
+					usesCache = true
+				}
+			}
+			k := 0
+			for _, sh := range deep {
+				for _, cfg := range [][2]bool{{true, false}, {true, true}, {false, false}} {
+					if !cfg[0] && usesCache {
+						continue
+					}
+					c := &Case{Ops: append(append([]int{}, ops...), 0), Shape: sh, Cache: cfg[0], Discard: cfg[1]}
+					execute(r, c)
+					r.Count("histories-one-level-deeper", 1)
+					if nontrivial(c) {
+						r.Count("nontrivial-counted-not-hashed", 1)
+						if (i+k)%64 == 0 {
+							r.Nontrivial(c.desc())
+						}
+					}
+					k++
+				}
+			}
+		})
+	}
 	return r.Finish(r.Pick(2000, 200000),
 		core.Require{Counter: "fetch-hit", Why: "no cache hit"},
 		core.Require{Counter: "fetch-download", Why: "no download"},
